@@ -208,7 +208,7 @@ func (p *parser) parseFragment() Selection {
 	var def InlineFragment
 	def.Position = p.peekPos()
 	def.Comment = comment
-	if p.peek().Value == "on" {
+	if peek := p.peek(); peek.Kind == lexer.Name && peek.Value == "on" {
 		p.next() // "on"
 
 		def.TypeCondition = p.parseName()
@@ -237,7 +237,7 @@ func (p *parser) parseFragmentDefinition() *FragmentDefinition {
 }
 
 func (p *parser) parseFragmentName() string {
-	if p.peek().Value == "on" {
+	if peek := p.peek(); peek.Kind == lexer.Name && peek.Value == "on" {
 		p.unexpectedError()
 		return ""
 	}
